@@ -33,7 +33,8 @@ def rand_case(rng, variant, max_cons=3, max_pkts=12, max_len=70, with_close=True
             k, c = sched[-1]
         sched.append([k, c])
     panic = [rng.randint(1, 4) if rng.random() < panic_p else 0 for _ in range(n)]
-    return [variant, n, maxq, gop, pkts, stop, sched, panic, flv, rng.choice([1, 1, 2, 3]), h265]
+    fua = (not flv) and (not h265) and rng.random() < 0.4   # H.264 video as FU-A fragments (the demuxer reassembles from the queued packet objects)
+    return [variant, n, maxq, gop, pkts, stop, sched, panic, flv, rng.choice([1, 1, 2, 3]), h265, fua]
 
 def drain(n, rounds=6):
     """suffix that lets every thread run to completion (fair round robin)"""
